@@ -329,6 +329,8 @@ def run(prog, chk):
 
     # ---- R14.5 assignment is right-recursive (grammar: assignmentExpression = logicalOr [ "=" assignmentExpression ]) ----------
     chk.rule('R14.5', 'assignment is right-recursive as in the grammar; member modifiers are accepted in any order')
+    chk.rule('R14.7', 'multi-declarators keep their source order: the parked declarators are flushed into the same list right after the first one was appended')
+    _multi_declarators_in_order(prog, chk)
     if 'assignmentExpression' in rules and re.search(r'\[\s*"="\s*assignmentExpression\s*\]', rules['assignmentExpression']):
         pe = prog.fn('Parser::parseExpression')
         targets = [t for n, fs in prog.callees(pe) for t in fs if t.body and t.name.startswith('bloch::compiler::Parser::')]
@@ -593,3 +595,42 @@ def _tested_tokens(prog, f, testers):
                     if _PRED_CACHE[ts[0].key]:
                         toks |= _PRED_CACHE[ts[0].key]
     return toks
+
+
+def _multi_declarators_in_order(prog, chk):
+    """R14.7 — `qubit a, b, c;` is three declarations in that order.  The parser parks the declarators after the first in a member list
+    and a flush function moves them into a statement list.  At every flush site the statement just parsed has been appended to that
+    very list immediately before: flushing first (or into another list) puts b and c in front of a — the numbering of qubits and of
+    classical bits in the emitted circuit changes."""
+    pfns = [f for f in prog.functions if f.body and f.file.endswith('parser/parser.cpp')]
+    flushers = []
+    for f in pfns:
+        if f.kind != 'method' or len(f.params) != 1 or 'std::vector<std::unique_ptr<' not in f.params[0]['type'] or 'Statement' not in f.params[0]['type']:
+            continue
+        pid = f.params[0].get('id')
+        moves = [n for n in SX.walk(f.body, into_lambdas=False) if n.get('k') == 'mcall' and SX.short(n.get('callee', '')) in ('push_back', 'emplace_back')
+                 and SX.is_node(SX.strip(n.get('obj'))) and SX.strip(n['obj']).get('id') == pid]
+        clears = [n for n in SX.walk(f.body, into_lambdas=False) if n.get('k') == 'mcall' and SX.short(n.get('callee', '')) == 'clear' and SX.is_this_member(SX.strip(n.get('obj')))]
+        if moves and clears:
+            flushers.append(f)
+    if len(flushers) != 1:
+        raise AnalysisBroken('the function that moves parked declarators into a statement list was not found uniquely (%d)' % len(flushers))
+    fl = flushers[0]
+    n = 0
+    for f in pfns:
+        for blk in SX.walk(f.body, into_lambdas=False):
+            if blk.get('k') != 'block':
+                continue
+            for i, st in enumerate(blk['body']):
+                e = SX.strip(st.get('e')) if st.get('k') == 'expr' else None
+                if not (SX.is_node(e) and e.get('k') == 'mcall' and e.get('callee') == fl.name):
+                    continue
+                n += 1
+                dest = SX.show(SX.strip(SX.real_args(e)[0]))
+                prev = blk['body'][i - 1] if i else None
+                pe = SX.strip(prev.get('e')) if prev is not None and prev.get('k') == 'expr' else None
+                ok = SX.is_node(pe) and pe.get('k') == 'mcall' and SX.short(pe.get('callee', '')) in ('push_back', 'emplace_back') and SX.show(SX.strip(pe.get('obj'))) == dest
+                chk.ob('R14.7', f, st.get('ln', f.ln), ok,
+                       'the declarators parked by a multi-declaration are moved into %s right after the statement they were split from was appended to it (flushing first, or into another '
+                       'list, reorders `qubit a, b, c;` into b, c, a)' % dest, key='flush-after-append:%s:%s' % (f.short, dest[:30]))
+    chk.count('sites that flush parked declarators', n, 2)
